@@ -77,7 +77,7 @@ func runC16(cfg *vh.Config) error {
 
 	// ------------------------------------------------------------ stream 1+2: generated packages, plain and mutated
 	rp := cfg.R.Fork("packages")
-	nPkg := cfg.Scale(70, 1500)
+	nPkg := cfg.Scale(70, 1200)
 	nAwk := cfg.Scale(10, 150)
 	type pk struct {
 		p   *gPackage
@@ -91,7 +91,7 @@ func runC16(cfg *vh.Config) error {
 		pks = append(pks, pk{p: p})
 		jobs = append(jobs, &Job{ID: len(jobs), Kind: "j5s", Pkg: p.Pkg, Files: map[string]string{strings.ReplaceAll(p.Pkg, ".", "/") + "/a.j5s": p.text()}})
 	}
-	nMut := cfg.Scale(45, 600)
+	nMut := cfg.Scale(45, 500)
 	for i := 0; i < nMut; i++ {
 		p := genPackage(rp, false)
 		sv := p.Services[0]
